@@ -18,8 +18,8 @@ TraceLog == ndJsonDeserialize(IOEnv.TRACE_FILE)
 VARIABLES l, cfg, a
 vars == <<l, cfg, a>>
 
-RViol == 1 RLines == 2 RTraces == 3 RRuns == 10 RCompleted == 11 REmptyClass == 12 RNothing == 13 RFail == 14 RUncont == 15 RNoFinish == 16
-Regs == {1, 2, 3} \cup 10..16
+RViol == 1 RLines == 2 RTraces == 3 RRuns == 10 RCompleted == 11 REmptyClass == 12 RNothing == 13 RFail == 14 RUncont == 15 RNoFinish == 16 RProbRuns == 17
+Regs == {1, 2, 3} \cup 10..17
 Bump(r, n) == TLCSet(r, TLCGet(r) + n)
 Flag(e, name, ok, detail) == IF ok THEN TRUE ELSE PrintT(<<"VIOL", e.tid, e.t, name, detail>>) /\ Bump(RViol, 1)
 RECURSIVE SumSeq(_)
@@ -31,7 +31,7 @@ SetDone(d, S, t) == IF S = {} THEN d ELSE LET p == CHOOSE x \in S : TRUE IN SetD
 \* accumulators of one run
 A0 == [prio |-> <<>>, arr |-> <<>>, nops |-> <<>>, done |-> <<>>,        \* per pipeline: priority, arrival tick, #ops, completion tick (-1)
        nasg |-> 0, nsus |-> 0, nfail |-> 0, nsucc |-> 0, errs |-> <<>>,   \* counters; errs = sequence of error strings of failed results
-       born |-> <<>>, ctimes |-> <<>>, wl |-> <<>>]                        \* creation tick per container id; tick counts of ended containers
+       born |-> <<>>, ctimes |-> <<>>, wl |-> <<>>, killed |-> <<>>]                        \* creation tick per container id; tick counts of ended containers
 
 (* ---- order statistics without sorting: the k-th smallest (0-based) element of a sequence ---- *)
 Kth(q, k) == CHOOSE v \in Rng(q) : Cardinality({i \in 1..Len(q) : q[i] < v}) <= k /\ k < Cardinality({i \in 1..Len(q) : q[i] <= v})
@@ -99,6 +99,15 @@ EndClauses(e) ==
              ELSE s.adjusted[1] = "num" /\ ProdCmp(<<IF s.adjusted[2] >= 2 THEN s.adjusted[2] - 2 ELSE 0, W, compl, cfg.tps>>, <<A, np, 1000000>>) <= 0
                                         /\ ProdCmp(<<s.adjusted[2] + 2, W, compl, cfg.tps>>, <<A, np, 1000000>>) >= 0,
              <<s.adjusted, "weighted latency ticks", A, "weighted count", W, "completed", compl, "arrived", np>>)
+  \* C15 seen through a whole simulation (run_simulator builds the generator from the parameter set): a class with probability 0
+  \* never arrives, and with probability 1 nothing else does
+  /\ ("probs" \in DOMAIN cfg =>
+        LET cls == <<"I", "Q", "B">> tot == cfg.probs[1] + cfg.probs[2] + cfg.probs[3] IN
+        /\ Bump(RProbRuns, 1)
+        /\ Flag(e, "C15.ZeroProbNeverArrives", \A j \in 1..3 : cfg.probs[j] = 0 => ArrOf(LAMBDA p : a.prio[p] = cls[j]) = 0,
+                <<"probabilities (I, Q, B)", cfg.probs, "arrivals", [j \in 1..3 |-> ArrOf(LAMBDA p : a.prio[p] = cls[j])]>>)
+        /\ Flag(e, "C15.CertainClassOnly", \A j \in 1..3 : (cfg.probs[j] > 0 /\ cfg.probs[j] = tot) => ArrOf(LAMBDA p : a.prio[p] = cls[j]) = np,
+                <<"probabilities (I, Q, B)", cfg.probs, "arrivals", [j \in 1..3 |-> ArrOf(LAMBDA p : a.prio[p] = cls[j])]>>))
   /\ (e.uncontended =>
         /\ Bump(RUncont, 1)
         /\ Flag(e, "C06.Uncontended", np = 1 /\ a.done[1] >= 0 /\
@@ -126,8 +135,15 @@ Step(e) ==
                               !.nsucc = @ + Cardinality({j \in 1..Len(res) : res[j].err = ""}),
                               !.errs = @ \o SelectSeq([j \in 1..Len(res) |-> res[j].err], LAMBDA x : x # ""),
                               !.done = SetDone(a.done, newly, e.t),
-                              !.ctimes = @ \o [j \in 1..Len(res) |-> IF res[j].cid \in 1..Len(a.born) THEN e.t - a.born[res[j].cid] + 1 ELSE -1]]
+                              \* ticks a container has run: from the tick it was created to the tick of its result - or to the tick before
+                              \* it was killed from outside (the reaping tick does not advance it any more)
+                              !.ctimes = @ \o [j \in 1..Len(res) |-> IF res[j].cid \in 1..Len(a.born)
+                                                                       THEN (IF \E x \in Rng(a.killed) : x[1] = res[j].cid
+                                                                             THEN (CHOOSE x \in Rng(a.killed) : x[1] = res[j].cid)[2] - a.born[res[j].cid]
+                                                                             ELSE e.t - a.born[res[j].cid] + 1)
+                                                                       ELSE -1]]
             /\ UNCHANGED cfg
+    [] e.ev = "kill" -> a' = [a EXCEPT !.killed = Append(@, <<e.cid, e.t>>)] /\ UNCHANGED cfg          \* Container.kill() from outside, before tick e.t
     [] e.ev = "end" /\ e.ok -> EndClauses(e) /\ UNCHANGED <<cfg, a>>
     [] OTHER -> UNCHANGED <<cfg, a>>
 Init == l = 1 /\ cfg = [mode |-> "none"] /\ a = A0 /\ \A r \in Regs : TLCSet(r, 0)
@@ -136,6 +152,6 @@ Spec == Init /\ [][Next]_vars
 \* the monitor is deterministic: the position in the log identifies the state (TLC then fingerprints one integer instead of the accumulators)
 Position == l
 Consumed == /\ PrintT(<<"COUNT", "runs", TLCGet(RRuns), "completed_pipelines", TLCGet(RCompleted), "empty_classes", TLCGet(REmptyClass), "runs_nothing_arrives", TLCGet(RNothing),
-                        "runs_nothing_finishes", TLCGet(RNoFinish), "failures", TLCGet(RFail), "uncontended_runs", TLCGet(RUncont)>>)
+                        "runs_nothing_finishes", TLCGet(RNoFinish), "failures", TLCGet(RFail), "uncontended_runs", TLCGet(RUncont), "runs_with_probabilities", TLCGet(RProbRuns)>>)
             /\ PrintT(<<"SUMMARY", "viol", TLCGet(RViol), "lines", TLCGet(RLines), "traces", TLCGet(RTraces)>>)
 =============================================================================
